@@ -26,6 +26,7 @@ import (
 
 type worldCase struct {
 	NCases       int            `json:"cases"`
+	SuiteName    string         `json:"suite_name,omitempty"` // "" = "Verif"; may equal the name of a case
 	Versions     []int32        `json:"http_versions"`
 	Protocols    []int32        `json:"protocols"`
 	Codecs       []int32        `json:"codecs"`
@@ -101,6 +102,13 @@ func expectedFor(idx int) *conformancev1.ClientResponseResult {
 	}
 }
 
+func (c *worldCase) suiteName() string {
+	if c.SuiteName == "" {
+		return "Verif"
+	}
+	return c.SuiteName
+}
+
 // files writes the config and suite files of this world.
 func (w *world) files() (configFile string, suiteFiles []string, err error) {
 	cfg := &conformancev1.Config{Features: &conformancev1.Features{
@@ -120,7 +128,7 @@ func (w *world) files() (configFile string, suiteFiles []string, err error) {
 	for _, c := range w.cs.Codecs {
 		cfg.Features.Codecs = append(cfg.Features.Codecs, conformancev1.Codec(c))
 	}
-	suite := &conformancev1.TestSuite{Name: "Verif"}
+	suite := &conformancev1.TestSuite{Name: w.cs.suiteName()}
 	for i := 0; i < w.cs.NCases; i++ {
 		msg, err := anypb.New(&conformancev1.UnaryRequest{ResponseDefinition: &conformancev1.UnaryResponseDefinition{
 			Response: &conformancev1.UnaryResponseDefinition_ResponseData{ResponseData: []byte(fmt.Sprintf("data-%d", i))},
